@@ -186,7 +186,10 @@ DOC_TEMPLATES = ["{c}", "para {c} text", "# head {c}", "> quote {c}", "- item {c
                  ".. note:: {c}\n   :class: {c}\n\n   body {c}", "```{{note}} {c}\n:class: {c}\nbody {c}\n```", ".. image:: {c}\n   :alt: {c}\n   :width: 10{c}\n   :target: {c}\n   :align: {c}",
                  ".. figure:: p.png\n   :figclass: {c}\n   :figwidth: {c}\n   :align: {c}\n\n   cap {c}", ".. toc:: {c}\n   :max-level: {c}\n\n# h {c}", ".. unknown:: {c}\n\n   {c}", "```{{unknown}} {c}\n{c}\n```",
                  ".. include:: {c}", ".. admonition:: {c}", "![[a](<{c}> \"t\nu\")](x.png)", "![[a]({c} 't\nu')](x.png)", "![![i](<{c}> \"t\nu\")](y.png)", "![*e* [a][r] `{c}`](x.png)\n\n[r]: <{c}> \"t\nu\"",
-                 "![<b title=\"{c}\nx\">](x.png)", "[![i](s \"{c}\")](u \"t\nu\")", "# h [a](<{c}> \"t\nu\")\n\n.. toc::", "![a\n[b](<{c}> \"t\")\nc](x.png)", "``` {c} {c}\nx\n```", "~~~ \"{c}\nx\n~~~"]
+                 "![<b title=\"{c}\nx\">](x.png)", "[![i](s \"{c}\")](u \"t\nu\")", "# h [a](<{c}> \"t\nu\")\n\n.. toc::", "![a\n[b](<{c}> \"t\")\nc](x.png)",
+                 # raw constructs in headings that a TOC lists (CDATA / processing instruction with an inner ">" and a lone quote)
+                 "# <![CDATA[ > <img src=x {c} \" ]]>\n\n.. toc::", "# <?x > <img src=x {c} \" ?>\n\n```{{toc}}\n```", "x <!-- > <i {c} ' -->\n===\n\n.. toc::", "## a <b title=\">\"> <img {c}>\n\n```{{toc}}\n```",
+                 ".. image:: p.png\n   :width: 1\" {c} data-x=\"%\n   :height: 5{c}%", "```{{figure}} p.png\n:width: 10\" {c} \"%\n:figwidth: 1{c}%\n```", "``` {c} {c}\nx\n```", "~~~ \"{c}\nx\n~~~"]
 
 SCHEMES = ["data:image/svg+xml;base64,AA", "data:text/html;base64,AA", "file:///usr/share/doc/x", "file:///etc/passwd", "javascript:void(0)", "javascript:void(1)", "javascript:alert(1)", "JaVaScRiPt:alert(1)", "vbscript:x", "file:///etc/passwd", "data:text/html,<x>", "data:image/png;base64,AA", " javascript:x", "java\tscript:x",
            "javascript&colon;x", "javascript&#58;x", "javascript&#x3a;x", "&#106;avascript:x", "java&#x73;cript:x", "javascript&amp;colon;x", "javascript&amp;#58;x", "&amp;#106;avascript:x",
